@@ -24,12 +24,15 @@ FN_LOAD = 170
 FN_DIR = 171
 
 # ---- unit pool: equal dimension, different scale ------------------------------------------------------------------
-POOL = {'V': ['volt', 'mV', 'uV'], 'T': ['second', 'ms'], '1': ['dimensionless', 'percent'], 'U': ['ub', 'kub']}
+POOL = {'V': ['volt', 'mV', 'uV'], 'T': ['second', 'ms'], '1': ['dimensionless', 'percent'], 'U': ['ub', 'kub'],
+        'A': ['m2', 'half_m2', 'quarter_cm2']}     # user units combining multiplier, prefix and exponent
 DIM_OF = {u: d for d, us in POOL.items() for u in us}
 SCALE = {'volt': Fraction(1), 'mV': Fraction(1, 1000), 'uV': Fraction(1, 10 ** 6), 'second': Fraction(1),
          'ms': Fraction(1, 1000), 'dimensionless': Fraction(1), 'percent': Fraction(1, 100), 'ub': Fraction(1),
-         'kub': Fraction(1000), 'ampere': Fraction(1), 'kilogram': Fraction(1)}
-BUILTIN_USED = ['volt', 'second', 'dimensionless', 'ampere', 'kilogram']
+         'kub': Fraction(1000), 'ampere': Fraction(1), 'kilogram': Fraction(1), 'metre': Fraction(1),
+         # CellML 5.2.7: multiplier * (prefix * unit) ** exponent
+         'm2': Fraction(1), 'half_m2': Fraction(1, 2), 'quarter_cm2': Fraction(1, 4) * Fraction(1, 100) ** 2}
+BUILTIN_USED = ['volt', 'second', 'dimensionless', 'ampere', 'kilogram', 'metre']
 
 
 def _child(units, prefix=None, exponent=None, multiplier=None, offset=None):
@@ -44,7 +47,10 @@ def unit_defs():
     return [_def('mV', [_child('volt', prefix='milli')]), _def('uV', [_child('mV', prefix='-3')]),
             _def('ms', [_child('second', multiplier='0.001')]),
             _def('percent', [_child('dimensionless', multiplier='0.01')]),
-            _def('ub', base='yes'), _def('kub', [_child('ub', prefix='kilo')])]
+            _def('ub', base='yes'), _def('kub', [_child('ub', prefix='kilo')]),
+            _def('m2', [_child('metre', exponent='2')]),
+            _def('half_m2', [_child('metre', exponent='2', multiplier='0.5')]),
+            _def('quarter_cm2', [_child('metre', prefix='centi', exponent='2', multiplier='0.25')])]
 
 
 # ---- expressions --------------------------------------------------------------------------------------------------
@@ -495,9 +501,10 @@ NUMS = ['1', '2', '3', '0.5', '1.5', '4', '0.25', '2.5', '10', '0.1']
 
 
 class Gen(object):
-    def __init__(self, seed, ncomp=None, floor_fns=False):
+    def __init__(self, seed, ncomp=None, floor_fns=False, case_names=False):
         self.rng = random.Random(seed)
         self.floor_fns = floor_fns
+        self.case_names = case_names
         self.n = ncomp or self.rng.randint(2, 7)
         self.names = COMP_NAMES[:self.n]
         self.rng.shuffle(self.names)
@@ -623,15 +630,15 @@ class Gen(object):
             return ['times'] + args
         if k < 0.7:
             if dim == '1':
-                d2 = r.choice(['V', 'T', 'U', '1'])
+                d2 = r.choice(['V', 'T', 'U', '1', 'A'])
                 return ['divide', self.expr(c, d2, avail, depth - 1), self.pos(c, d2, avail)]
             return ['divide', self.expr(c, dim, avail, depth - 1), self.pos(c, '1', avail)]
         if k < 0.8 and dim == '1':
             return ['power', self.expr(c, '1', avail, depth - 1), cn(r.choice(['2', '3']), 'dimensionless')]
         if k < 0.9 and dim == '1':
             # exp(...) sits inside a product: the unit-fix pass refuses a function asked for in a scaled unit (percent)
-            d2 = r.choice(['V', 'T', 'U', '1'])
-            base = {'V': 'volt', 'T': 'second', 'U': 'kub', '1': 'dimensionless'}[d2]
+            d2 = r.choice(['V', 'T', 'U', '1', 'A'])
+            base = {'V': 'volt', 'T': 'second', 'U': 'kub', '1': 'dimensionless', 'A': 'm2'}[d2]
             return ['times', ['exp', ['divide', self.leaf(c, d2, avail), cn(r.choice(['50', '100', '400']), base)]],
                     self.leaf(c, '1', avail)]
         if self.floor_fns and dim == '1':
@@ -657,7 +664,7 @@ class Gen(object):
         for c in order:
             nown = r.randint(1, 4)
             for j in range(nown):
-                dim = r.choice(['V', 'V', 'T', '1', 'U'])
+                dim = r.choice(['V', 'V', 'T', '1', 'U', 'A'])
                 units = r.choice(POOL[dim])
                 kind = r.choice(['state', 'const', 'comp', 'comp'])
                 base = r.choice(['v', 'x', 'y', 'g', 'k', 'a', 'b', 'm', 'h'])
@@ -695,6 +702,8 @@ class Gen(object):
                         rhs = ['divide', self.expr(c, dim, avail2, r.randint(1, 2)), self.pos(c, 'T', avail)]
                         self.maths[c].append(['eq', ['diff', ci(v['name']), ci(lt['name'])], rhs])
                 owned.append((c, v))
+        if self.case_names:
+            self.add_case_pairs(owned)
         # cmeta ids
         for c in self.names:
             for v in self.vars[c]:
@@ -718,6 +727,43 @@ class Gen(object):
                     self.cm += 1
                     nv['cmeta'] = 'id%d' % self.cm
         return self.document()
+
+    def add_case_pairs(self, owned):
+        """variables of one component whose names differ only in case, in the same topological layer (constants, or
+        computed from the same operand), and a variable that depends on all of them"""
+        r = self.rng
+        for c in self.names:
+            if r.random() < 0.2:
+                continue
+            dim = r.choice(['V', 'T', '1', 'U', 'A'])
+            pairs = r.sample([('k', 'K'), ('rate', 'Rate'), ('i_x', 'I_x'), ('gna', 'gNa'), ('v_m', 'V_m'), ('tau', 'TAU')],
+                             r.randint(2, 3))
+            members = []
+            kind = r.choice(['const', 'comp', 'mixed'])
+            seedv = None
+            if kind != 'const':
+                seedv = self.new_var(c, 'seed', r.choice(POOL[dim]), 'const', init=r.choice(NUMS))
+                owned.append((c, seedv))
+            for lo, up in pairs:
+                names = [lo, up]
+                r.shuffle(names)
+                for n in names:
+                    if n in {v['name'] for v in self.vars[c]}:
+                        continue
+                    if kind == 'const' or (kind == 'mixed' and r.random() < 0.5):
+                        v = self.new_var(c, n, r.choice(POOL[dim]), 'const', init=r.choice(NUMS))
+                    else:
+                        v = self.new_var(c, n, r.choice(POOL[dim]), 'comp')
+                        self.maths[c].append(['eq', ci(v['name']), ['times', cn(r.choice(NUMS), 'dimensionless'),
+                                                                    ci(seedv['name'])]])
+                    members.append(v)
+                    owned.append((c, v))
+            if len(members) >= 2:
+                tot = self.new_var(c, 'total', r.choice(POOL[dim]), 'comp')
+                self.maths[c].append(['eq', ci(tot['name']), ['plus'] + [ci(v['name']) for v in members]])
+                owned.append((c, tot))
+            eqs = self.maths[c]
+            r.shuffle(eqs)
 
     def lookup(self, c, n):
         return [v for v in self.vars[c] if v['name'] == n][0]
@@ -792,8 +838,8 @@ class Gen(object):
         return doc
 
 
-def gen_valid(seed, ncomp=None, floor_fns=False):
-    return Gen(seed, ncomp, floor_fns).build()
+def gen_valid(seed, ncomp=None, floor_fns=False, case_names=False):
+    return Gen(seed, ncomp, floor_fns, case_names).build()
 
 
 # ---- the 324 two-component interface documents --------------------------------------------------------------------
@@ -1030,6 +1076,39 @@ def walk(e):
                     yield x
 
 
+def closed_system(model):
+    """the equation system of a loaded model must be closed: every variable a right-hand side mentions is a state, the
+    free variable or has a definition; Model.graph and get_equations_for must succeed.  -> list of complaints"""
+    import sympy
+    from cellmlmanip.model import Variable
+    bad = []
+    defined, states, free = set(), set(), set()
+    for q in model.equations:
+        if q.lhs.is_Derivative:
+            states.add(q.lhs.args[0])
+            free.add(q.lhs.args[1][0])
+        else:
+            defined.add(q.lhs)
+    for q in model.equations:
+        rhs = q.rhs
+        for d in rhs.atoms(sympy.Derivative):
+            if d.args[0] not in states or d.args[1][0] not in free:
+                bad.append('equation %s mentions %s, which no equation of the model defines' % (q, d))
+        rhs0 = rhs.xreplace({d: sympy.Integer(0) for d in rhs.atoms(sympy.Derivative)})
+        for v in rhs0.atoms(Variable):
+            if v not in defined and v not in states and v not in free:
+                bad.append('equation %s mentions %s, which is neither defined nor a state nor the free variable'
+                           % (q, v.name))
+    for name, fn in (('Model.graph', lambda: model.graph),
+                     ('get_equations_for', lambda: model.get_equations_for(
+                         model.get_derivatives() + model.get_derived_quantities()))):
+        try:
+            fn()
+        except Exception as e:
+            bad.append('%s raises %s: %s' % (name, vlib.err_class(e), str(e)[:150]))
+    return bad
+
+
 def impl_values(model, doc, classes, si):
     """numeric value of every flat variable, computed from the loaded model alone (equations made consistent with
     convert_expression_recursively(eq, None)), states and the free variable taken from the SI values `si` of their
@@ -1046,6 +1125,7 @@ def impl_values(model, doc, classes, si):
         else:
             defs[q2.lhs] = q2.rhs
     statevars = {x for (x, t) in odes}
+    freevars = {t for (x, t) in odes}
     cache = {}
 
     def val(v, stack=()):
@@ -1055,11 +1135,14 @@ def impl_values(model, doc, classes, si):
             raise NoValue('cycle at %s' % v.name)
         if v in defs and v not in statevars:
             r = ev(defs[v], stack + (v,))
-        else:
+        elif v in statevars or v in freevars:
+            # only states and the free variable take their value from outside the equation system
             cl = cls[v.name]
             if cl not in si:
                 raise NoValue(v.name)
             r = si[cl] / float(SCALE[units[v.name]])
+        else:
+            raise NoValue('%s has no definition in the loaded model' % v.name)
         cache[v] = r
         return r
 
@@ -1078,14 +1161,17 @@ def impl_values(model, doc, classes, si):
             sub[a] = sympy.Float(float(a), 17)
         return float(ex.xreplace(sub).evalf(17))
     out = {}
+    why = {}
     for v in model.variables():
         tgt = v.assigned_to
         if tgt is None:
+            why[v.name] = 'it is connected to nothing that gives it a value'
             continue
         try:
             out[v.name] = val(tgt)
-        except NoValue:
-            pass
+        except NoValue as e:
+            why[v.name] = str(e)
+    out['?why'] = why
     dout = {}
     for (x, t), rhs in odes.items():
         try:
@@ -1456,8 +1542,13 @@ def observe(path):
     rec['states'] = q(lambda: [v.name for v in model.get_state_variables()])
     rec['derived'] = q(lambda: [v.name for v in model.get_derived_quantities()])
     rec['derivatives'] = q(lambda: [strip(str(v)) for v in model.get_derivatives()])
-    rec['eqs_for'] = q(lambda: [strip(str(e)) for e in model.get_equations_for(
-        model.get_derivatives() + model.get_derived_quantities())])
+    def outputs():
+        return model.get_derivatives() + model.get_derived_quantities()
+    rec['eqs_for'] = q(lambda: [strip(str(e)) for e in model.get_equations_for(outputs())])
+    rec['eqs_for_units'] = q(lambda: [strip(str(e)) for e in model.get_equations_for(outputs(), strip_units=False)])
+    rec['eqs_for_top'] = q(lambda: [strip(str(e)) for e in model.get_equations_for(outputs(), recurse=False)])
+    rec['eqs_for_each'] = q(lambda: [[v.name] + [strip(str(e)) for e in model.get_equations_for([v], strip_units=False)]
+                                     for v in sorted(model.get_derived_quantities(), key=lambda x: x.name)[:8]])
     rec['free'] = q(lambda: model.get_free_variable().name)
     return rec
 
